@@ -593,9 +593,11 @@ def unit(repo, fname, defines=(), openmp=True):
     if key not in _UNITS:
         u = _expand_new_helpers(load_unit(repo, fname, defines, openmp), fname)
         from .canon import canon_body
-        for f in u.funcs.values():
+        from . import alpha
+        for q_, f in u.funcs.items():
             if f.body is not None:
-                f.body = canon_body(f.body)
+                prm_ = [p_[0] for p_ in f.params]
+                f.body = canon_body(alpha.absorb_new_locals(fname, q_, prm_, alpha.recover(fname, q_, prm_, f.body)))
         # the OpenMP regions are statements of the (expanded, canonical) bodies
         u.omp_regions = [(q, st) for q, f in u.funcs.items() if f.body is not None for st in walk_stmts_(f.body) if st.k == 'omp']
         _UNITS[key] = u
